@@ -156,8 +156,10 @@ func ip(s string, v6 bool) net.IP {
 }
 
 // New creates an aggregation process (never started) with the shared configuration.
+var loadOnce sync.Once
+
 func New(active, inactive time.Duration, ch chan *entities.Message, workers int) *intermediate.AggregationProcess {
-	registry.LoadRegistry()
+	loadOnce.Do(registry.LoadRegistry) // LoadRegistry is start-up code, not safe to run concurrently
 	if ch == nil {
 		ch = make(chan *entities.Message)
 	}
